@@ -863,7 +863,7 @@ class Fxp():
 
             if val_dtype == object:       
                 # convert each element to int
-                new_val = np.array(list(map(int, new_val.flatten()))).reshape(new_val.shape).astype(val_dtype)
+                new_val = np.array(list(map(int, new_val.flatten())), dtype=object).reshape(new_val.shape).astype(val_dtype)
             
             if index is not None:
                 self.val[index] = new_val
